@@ -87,7 +87,10 @@ var encPrefixes = []struct {
 
 // checkEncoderValue: WriteValue of an invalid raw value behind prefix k must report a pointer admitted for the
 // concatenation of what was written and the value.
-func checkEncoderValue(k int, val string) (msg string) {
+// encFmtSets: formatting options of the Encoder; none of them may move a reported position.
+var encFmtSets = [][]jsontext.Options{nil, {jsontext.SpaceAfterComma(true)}, {jsontext.SpaceAfterColon(true), jsontext.SpaceAfterComma(true)}, {jsontext.Multiline(true)}, {jsontext.WithIndent(" "), jsontext.SpaceAfterComma(false)}}
+
+func checkEncoderValue(k int, val string, oi ...int) (msg string) {
 	defer func() {
 		if p := recover(); p != nil {
 			msg = fmt.Sprintf("library panic: %v", p)
@@ -103,7 +106,11 @@ func checkEncoderValue(k int, val string) (msg string) {
 	pres := refjson.Parse([]byte(pre.text), refjson.Opts{})
 	slot := refjson.Pointer(pres.Stack, len(pres.Stack))
 	var bb bytes.Buffer
-	e := jsontext.NewEncoder(&bb)
+	var fmtOpts []jsontext.Options
+	if len(oi) > 0 {
+		fmtOpts = encFmtSets[oi[0]]
+	}
+	e := jsontext.NewEncoder(&bb, fmtOpts...)
 	for _, t := range pre.toks {
 		if err := e.WriteToken(t); err != nil {
 			return fmt.Sprintf("HARNESS: prefix token rejected: %v", err)
@@ -167,9 +174,11 @@ func escapedNames(r *evid.Run) {
 				report(r, Case{Part: "invalid-text", Input: b}, m)
 			}
 			for k := range encPrefixes {
-				nenc++
-				if m := checkEncoderValue(k, text); m != "" {
-					report(r, Case{Part: "encoder-value", Input: b, Program: fmt.Sprint(k)}, m)
+				for oi := range encFmtSets {
+					nenc++
+					if m := checkEncoderValue(k, text, oi); m != "" {
+						report(r, Case{Part: "encoder-value", Input: b, Program: fmt.Sprintf("%d %d", k, oi)}, "Encoder formatting option set "+fmt.Sprint(oi)+": "+m)
+					}
 				}
 			}
 		}
@@ -321,14 +330,22 @@ func semanticBefore(r *evid.Run) {
 func replayExtra(cs Case) (string, bool) {
 	switch cs.Part {
 	case "encoder-value":
-		var k int
-		fmt.Sscan(cs.Program, &k)
-		if k < 0 || k >= len(encPrefixes) {
+		var k, oi int
+		fmt.Sscan(cs.Program, &k, &oi)
+		if k < 0 || k >= len(encPrefixes) || oi < 0 || oi >= len(encFmtSets) {
 			return "", true
 		}
-		return checkEncoderValue(k, string(cs.Input)), true
+		return checkEncoderValue(k, string(cs.Input), oi), true
 	case "token-dup":
 		return checkTokenDup(string(cs.Input)), true
+	case "midway":
+		var k, cnt int
+		var obj, byValue bool
+		var ws string
+		if n, _ := fmt.Sscanf(cs.Program, "%d %d %t %t %q", &k, &cnt, &obj, &byValue, &ws); n == 5 && k >= 0 && k < 64 && cnt >= 0 && cnt <= midCount {
+			return midOne(k, cnt, obj, byValue, ws), true
+		}
+		return "", true
 	case "semantic-before":
 		for _, c := range befCases() {
 			if c.text == cs.InputText || c.text == string(cs.Input) {
